@@ -161,7 +161,7 @@ Definition cnt (s : state) (av : list avar) : Z :=
 Lemma sim_init nv : sim (init nv) (ainit nv) [].
 Proof.
   unfold init, ainit. constructor; simpl.
-  - reflexivity.
+  - rewrite !repeat_length. reflexivity.
   - intros i. rewrite !nget_repeat_none. tauto.
   - intros i t H. rewrite nget_repeat_none in H. discriminate.
   - intros i j ti tj pi pj _ [H _]. rewrite nget_repeat_none in H. discriminate.
